@@ -14,7 +14,8 @@
     `if spattern.sntree.n_cliques == 1 { continue }`);
   * `cliqueO_cover_of_valid`: C17's coverage clause in C18's terms (every pattern entry lies in the
     block of some clique, sorted original coordinates);
-  * `decomposition_of_analysis_none/_pc`: end to end for the two strategies C17 covers by theorem;
+  * `decomposition_of_analysis_none/_pc/_cg/_all`: end to end for the three merge strategies
+    (`none`, `parent_child`, `clique_graph` — C17's `analysis_{none,pc,cg}_valid`);
   * `FromAnalysis`, `info_of_analysis`, `compactHyp_of_analysis`: a `ChordalInfo` all of whose
     stored patterns are analysis results satisfies `StdOK` (hypothesis of `H_no_panic`) and
     `ValidInfo` + coverage (the pattern part of `CompactHyp`).
@@ -22,6 +23,7 @@
 import ClarabelProofs.Lemmas.ChordalStdBridge
 import ClarabelProofs.Lemmas.ChordalBridge
 import ClarabelProofs.Lemmas.ChordalCompactInfo
+import ClarabelProofs.Lemmas.ChordalCGExactFinal
 
 namespace Clarabel.Chordal
 open SuperNodeTree
@@ -232,20 +234,78 @@ theorem decomposition_of_analysis_pc {L : LPat} (h : L.Filled) (ordering : Array
   obtain ⟨tf, ord', h1, h2, _⟩ := analysis_pc_valid h ordering ho edges hedges
   exact ⟨tf, ord', h1, fun hne => DecompReady.of_valid L.n edges ⟨tf, ord', oi⟩ h2 hne⟩
 
+/-- [S] **`decomposition_of_analysis`, strategy `clique_graph`** (C17's `analysis_cg_valid`: the
+whole clique-graph pipeline — reduced clique graph, merge loop, Kruskal's maximum-weight spanning
+tree, `post_process_merge` — with no hypothesis on the run) -/
+theorem decomposition_of_analysis_cg {L : LPat} (h : L.Filled) (ordering : Array Nat)
+    (ho : ordering.toList.Perm (List.range L.n)) (edges : List (Nat × Nat))
+    (hedges : ∀ e ∈ edges, ∃ a b, a < L.n ∧ b < L.n ∧ ordering[a]? = some e.1 ∧
+        ordering[b]? = some e.2 ∧ (b ∈ L.col a ∨ a ∈ L.col b)) (oi : Nat) :
+    ∃ tf ord', sparsityPatternNewCG L ordering = .ok (tf, ord') ∧
+      (tf.nCliques ≠ 1 → DecompReady ⟨tf, ord', oi⟩ L.n edges) := by
+  obtain ⟨tf, ord', h1, h2, _⟩ := analysis_cg_valid h ordering ho edges hedges
+  exact ⟨tf, ord', h1, fun hne => DecompReady.of_valid L.n edges ⟨tf, ord', oi⟩ h2 hne⟩
+
+/-- the three values of `chordal_decomposition_merge_method` that `SparsityPattern::new` accepts -/
+def MergeMethodOK (mm : String) : Prop := mm = "none" ∨ mm = "parent_child" ∨ mm = "clique_graph"
+
+theorem sparsityPatternNewAll_none (L : LPat) (ordering : Array Nat) :
+    sparsityPatternNewAll L ordering "none" = sparsityPatternNew L ordering "none" := by
+  unfold sparsityPatternNewAll
+  rw [if_neg (by decide)]
+
+theorem sparsityPatternNewAll_pc (L : LPat) (ordering : Array Nat) :
+    sparsityPatternNewAll L ordering "parent_child" = sparsityPatternNew L ordering "parent_child" := by
+  unfold sparsityPatternNewAll
+  rw [if_neg (by decide)]
+
+theorem sparsityPatternNewAll_cg (L : LPat) (ordering : Array Nat) :
+    sparsityPatternNewAll L ordering "clique_graph" = sparsityPatternNewCG L ordering := by
+  unfold sparsityPatternNewAll
+  rw [if_pos (by decide)]
+
+/-- [S] C17 for all three strategies in one statement: `SparsityPattern::new(L, ordering, mm)`
+returns without panic a tree satisfying `ValidCliqueTree` -/
+theorem analysis_all_valid {L : LPat} (h : L.Filled) (ordering : Array Nat)
+    (ho : ordering.toList.Perm (List.range L.n)) (edges : List (Nat × Nat))
+    (hedges : ∀ e ∈ edges, ∃ a b, a < L.n ∧ b < L.n ∧ ordering[a]? = some e.1 ∧
+        ordering[b]? = some e.2 ∧ (b ∈ L.col a ∨ a ∈ L.col b)) (mm : String) (hmm : MergeMethodOK mm) :
+    ∃ tf ord', sparsityPatternNewAll L ordering mm = .ok (tf, ord') ∧
+      ValidCliqueTree L.n edges tf ord' := by
+  rcases hmm with rfl | rfl | rfl
+  · obtain ⟨tf, ord', h1, h2, _⟩ := analysis_none_valid h ordering ho edges hedges
+    exact ⟨tf, ord', by rw [sparsityPatternNewAll_none]; exact h1, h2⟩
+  · obtain ⟨tf, ord', h1, h2, _⟩ := analysis_pc_valid h ordering ho edges hedges
+    exact ⟨tf, ord', by rw [sparsityPatternNewAll_pc]; exact h1, h2⟩
+  · obtain ⟨tf, ord', h1, h2, _⟩ := analysis_cg_valid h ordering ho edges hedges
+    exact ⟨tf, ord', by rw [sparsityPatternNewAll_cg]; exact h1, h2⟩
+
+/-- [S] **`decomposition_of_analysis`, every strategy**: `SparsityPattern::new(L, ordering, mm)`
+for `mm ∈ {none, parent_child, clique_graph}` -/
+theorem decomposition_of_analysis_all {L : LPat} (h : L.Filled) (ordering : Array Nat)
+    (ho : ordering.toList.Perm (List.range L.n)) (edges : List (Nat × Nat))
+    (hedges : ∀ e ∈ edges, ∃ a b, a < L.n ∧ b < L.n ∧ ordering[a]? = some e.1 ∧
+        ordering[b]? = some e.2 ∧ (b ∈ L.col a ∨ a ∈ L.col b)) (oi : Nat)
+    (mm : String) (hmm : MergeMethodOK mm) :
+    ∃ tf ord', sparsityPatternNewAll L ordering mm = .ok (tf, ord') ∧
+      (tf.nCliques ≠ 1 → DecompReady ⟨tf, ord', oi⟩ L.n edges) := by
+  obtain ⟨tf, ord', h1, h2⟩ := analysis_all_valid h ordering ho edges hedges mm hmm
+  exact ⟨tf, ord', h1, fun hne => DecompReady.of_valid L.n edges ⟨tf, ord', oi⟩ h2 hne⟩
+
 /-! ## the whole `ChordalInfo` -/
 
-/-- every stored pattern of `ci` is the output of the analysis (strategy `none` or
-`parent_child`) of a filled pattern `L` with a permutation `ordering`, for the PSD cone
-`p.origIndex` of dimension `L.n`, has more than one clique, and the pattern entries `E c` of that
-cone are entries of `L` -/
+/-- every stored pattern of `ci` is the output of the analysis (`SparsityPattern::new` with ANY of
+the three merge strategies `none`, `parent_child`, `clique_graph`) of a filled pattern `L` with a
+permutation `ordering`, for the PSD cone `p.origIndex` of dimension `L.n`, has more than one clique,
+and the pattern entries `E c` of that cone are entries of `L` -/
 def FromAnalysis (ci : ChordalInfo) (E : Nat → List (Nat × Nat)) : Prop :=
   ∀ (k : Nat) (p : SPattern), ci.spatterns[k]? = some p →
     p.sntree.nCliques ≠ 1 ∧
-    ∃ (L : LPat) (ordering : Array Nat) (mm : String), (mm = "none" ∨ mm = "parent_child") ∧
+    ∃ (L : LPat) (ordering : Array Nat) (mm : String), MergeMethodOK mm ∧
       L.Filled ∧ ordering.toList.Perm (List.range L.n) ∧
       (∀ e ∈ E p.origIndex, ∃ a b, a < L.n ∧ b < L.n ∧ ordering[a]? = some e.1 ∧
         ordering[b]? = some e.2 ∧ (b ∈ L.col a ∨ a ∈ L.col b)) ∧
-      sparsityPatternNew L ordering mm = .ok (p.sntree, p.ordering) ∧
+      sparsityPatternNewAll L ordering mm = .ok (p.sntree, p.ordering) ∧
       ci.initCones[p.origIndex]? = some (.psd L.n)
 
 theorem FromAnalysis.ready {ci : ChordalInfo} {E : Nat → List (Nat × Nat)} (h : FromAnalysis ci E)
@@ -253,15 +313,10 @@ theorem FromAnalysis.ready {ci : ChordalInfo} {E : Nat → List (Nat × Nat)} (h
     ∃ d, ci.initCones[p.origIndex]? = some (.psd d) ∧ DecompReady p d (E p.origIndex) := by
   obtain ⟨hne, L, ordering, mm, hmm, hf, ho, he, hnew, hcone⟩ := h k p hk
   refine ⟨L.n, hcone, ?_⟩
-  rcases hmm with rfl | rfl
-  · obtain ⟨tf, ord', h1, h2⟩ := decomposition_of_analysis_none hf ordering ho _ he p.origIndex
-    rw [hnew] at h1
-    obtain ⟨rfl, rfl⟩ := Prod.mk.inj (Except.ok.inj h1)
-    exact h2 hne
-  · obtain ⟨tf, ord', h1, h2⟩ := decomposition_of_analysis_pc hf ordering ho _ he p.origIndex
-    rw [hnew] at h1
-    obtain ⟨rfl, rfl⟩ := Prod.mk.inj (Except.ok.inj h1)
-    exact h2 hne
+  obtain ⟨tf, ord', h1, h2⟩ := decomposition_of_analysis_all hf ordering ho _ he p.origIndex mm hmm
+  rw [hnew] at h1
+  obtain ⟨rfl, rfl⟩ := Prod.mk.inj (Except.ok.inj h1)
+  exact h2 hne
 
 /-- [S] **the hypotheses of C18 from the conclusions of C17**: if every stored pattern is an
 analysis result then `ci.StdOK` (the hypothesis of `H_no_panic`, `standard_blocks`, …),
